@@ -353,7 +353,7 @@ CHECKS["C17"] = {
 CHECKS["C15"] = {
     "engine": "E1",
     "technique": "bounded exhaustive enumeration of option-specific files (repeated keys, indented lines) and of ALL option strings up to a length over the documented items, real parser / tokenizer against by-construction expectations",
-    "level_text": "JOIN: every file of <= n lines over {k=a, k=b, k=, k=a+continuation, j=b, j=, [A]} read with and without JOIN_SAME_ENTRIES=1, value lists "
+    "level_text": "JOIN: every file of <= n lines over {k=a, k=b, k=, k=a+continuation, j=b, j=, [A], [B]} read with and without JOIN_SAME_ENTRIES=1, value lists "
                   "(plain and extended getter) = lines of all definitions since the last empty one / first definition; PYTHON: entry line x every sequence of "
                   "<= m indented lines containing delimiters, comment characters, blanks, look-alike redefinitions x optional next entry; option strings: every "
                   "sequence of <= 3 items over 8 documented items (two variants per valued item so that 'last occurrence wins' is observable through "
